@@ -83,6 +83,107 @@ Proof. intros H. apply (defect_reverse_spec d H). Qed.
 Lemma defect_reverse_lt d : (d < 256)%N -> (defect_reverse d < 256)%N.
 Proof. intros H. apply (defect_reverse_spec d H). Qed.
 
+(* ------------------------------------------------------------------ Defect: every bit set (IntFlag keeps unknown bits) *)
+Definition low (d : N) : N := N.land d 255.
+Definition cmask (m d : N) : N := if Nat.eqb (popcount (N.land m d)) 1 then m else 0%N.
+Lemma flip_pair_lxor m self acc : flip_pair m self acc = N.lxor acc (cmask m self).
+Proof. unfold flip_pair, cmask. destruct (Nat.eqb _ 1); [reflexivity|rewrite N.lxor_0_r; reflexivity]. Qed.
+Lemma defect_reverse_lxor d :
+  defect_reverse d = N.lxor (N.lxor (N.lxor d (cmask mask_MISS d)) (cmask mask_BEYOND d)) (cmask mask_UNKNOWN d).
+Proof. unfold defect_reverse. rewrite !flip_pair_lxor. reflexivity. Qed.
+Lemma masks_low : N.land mask_MISS 255 = mask_MISS /\ N.land mask_BEYOND 255 = mask_BEYOND /\ N.land mask_UNKNOWN 255 = mask_UNKNOWN.
+Proof. vm_compute. repeat split; reflexivity. Qed.
+Lemma cmask_low m d : N.land m 255 = m -> cmask m d = cmask m (low d).
+Proof.
+  intros H. unfold cmask, low. replace (N.land m (N.land d 255)) with (N.land m d); [reflexivity|].
+  rewrite (N.land_comm d 255), N.land_assoc, H. reflexivity.
+Qed.
+Lemma low_low d : low (low d) = low d.
+Proof. unfold low. rewrite <- N.land_assoc. reflexivity. Qed.
+Lemma low_lt d : (low d < 256)%N.
+Proof.
+  unfold low. change 255%N with (N.ones 8). rewrite N.land_ones. apply N.mod_lt. vm_compute. discriminate.
+Qed.
+Lemma small_facts : forallb (fun n => N.eqb (N.land n 255) n && N.eqb (N.shiftr n 8) 0) all_defects = true.
+Proof. vm_compute. reflexivity. Qed.
+Lemma low_small n : (n < 256)%N -> low n = n /\ N.shiftr n 8 = 0%N.
+Proof.
+  intros H. pose proof small_facts as A. rewrite forallb_forall in A. specialize (A n (in_all_defects n H)).
+  apply andb_prop in A. destruct A as [A B]. apply N.eqb_eq in A, B. split; assumption.
+Qed.
+Lemma lxor_cancel_r a b : N.lxor (N.lxor a b) b = a.
+Proof. rewrite N.lxor_assoc, N.lxor_nilpotent, N.lxor_0_r. reflexivity. Qed.
+Lemma split_hi_lo d : N.lxor (N.lxor d (low d)) (low d) = d.
+Proof. rewrite N.lxor_assoc, N.lxor_nilpotent, N.lxor_0_r. reflexivity. Qed.
+(* the unknown bits pass through unchanged: reverse = (bits outside 0..255) xor reverse(bits inside) *)
+Lemma defect_reverse_split d : defect_reverse d = N.lxor (N.lxor d (low d)) (defect_reverse (low d)).
+Proof.
+  destruct masks_low as (M1 & M2 & M3).
+  rewrite (defect_reverse_lxor d), (defect_reverse_lxor (low d)).
+  rewrite (cmask_low mask_MISS d M1), (cmask_low mask_BEYOND d M2), (cmask_low mask_UNKNOWN d M3).
+  generalize (cmask mask_MISS (low d)) (cmask mask_BEYOND (low d)) (cmask mask_UNKNOWN (low d)). intros c1 c2 c3.
+  rewrite <- !N.lxor_assoc. rewrite split_hi_lo. reflexivity.
+Qed.
+Lemma land_lxor_distr_l a b c : N.land (N.lxor a b) c = N.lxor (N.land a c) (N.land b c).
+Proof.
+  apply N.bits_inj. intros n. rewrite N.land_spec, !N.lxor_spec, !N.land_spec.
+  destruct (N.testbit a n), (N.testbit b n), (N.testbit c n); reflexivity.
+Qed.
+Lemma low_hi d : low (N.lxor d (low d)) = 0%N.
+Proof. unfold low. rewrite land_lxor_distr_l. fold (low d). fold (low (low d)). rewrite low_low. apply N.lxor_nilpotent. Qed.
+Lemma low_defect_reverse d : low (defect_reverse d) = defect_reverse (low d).
+Proof.
+  rewrite (defect_reverse_split d). unfold low at 1. rewrite land_lxor_distr_l. fold (low (N.lxor d (low d))).
+  rewrite low_hi, N.lxor_0_l. apply low_small. apply defect_reverse_lt. apply low_lt.
+Qed.
+Lemma defect_reverse_invol_all d : defect_reverse (defect_reverse d) = d.
+Proof.
+  rewrite (defect_reverse_split (defect_reverse d)). rewrite low_defect_reverse.
+  rewrite (defect_reverse_invol (low d) (low_lt d)).
+  rewrite (defect_reverse_split d) at 1. rewrite lxor_cancel_r. apply split_hi_lo.
+Qed.
+Lemma shiftr_hi d : N.shiftr d 8 = N.shiftr (N.lxor d (low d)) 8.
+Proof.
+  rewrite N.shiftr_lxor. destruct (low_small (low d) (low_lt d)) as [_ E]. rewrite E, N.lxor_0_r. reflexivity.
+Qed.
+Lemma defect_reverse_high d : N.shiftr (defect_reverse d) 8 = N.shiftr d 8.
+Proof.
+  rewrite (defect_reverse_split d), N.shiftr_lxor.
+  destruct (low_small (defect_reverse (low d)) (defect_reverse_lt _ (low_lt d))) as [_ E]. rewrite E, N.lxor_0_r.
+  symmetry. apply shiftr_hi.
+Qed.
+Lemma has_flag_low d m : N.land m 255 = m -> has_flag d m = has_flag (low d) m.
+Proof.
+  intros H. unfold has_flag, low. rewrite <- N.land_assoc, (N.land_comm 255 m), H. reflexivity.
+Qed.
+Lemma flags_low : N.land D_MISS_LEFT 255 = D_MISS_LEFT /\ N.land D_MISS_RIGHT 255 = D_MISS_RIGHT /\
+  N.land D_BEYOND_LEFT 255 = D_BEYOND_LEFT /\ N.land D_BEYOND_RIGHT 255 = D_BEYOND_RIGHT /\
+  N.land D_UNKNOWN_LEFT 255 = D_UNKNOWN_LEFT /\ N.land D_UNKNOWN_RIGHT 255 = D_UNKNOWN_RIGHT.
+Proof. vm_compute. repeat split; reflexivity. Qed.
+(* Defect._reverse on an arbitrary bit set *)
+Lemma defect_reverse_all d :
+  defect_reverse (defect_reverse d) = d /\
+  N.land (defect_reverse d) 255 = defect_reverse (N.land d 255) /\
+  N.shiftr (defect_reverse d) 8 = N.shiftr d 8 /\
+  has_flag (defect_reverse d) D_MISS_LEFT = has_flag d D_MISS_RIGHT /\
+  has_flag (defect_reverse d) D_MISS_RIGHT = has_flag d D_MISS_LEFT /\
+  has_flag (defect_reverse d) D_BEYOND_LEFT = has_flag d D_BEYOND_RIGHT /\
+  has_flag (defect_reverse d) D_BEYOND_RIGHT = has_flag d D_BEYOND_LEFT /\
+  has_flag (defect_reverse d) D_UNKNOWN_LEFT = has_flag d D_UNKNOWN_RIGHT /\
+  has_flag (defect_reverse d) D_UNKNOWN_RIGHT = has_flag d D_UNKNOWN_LEFT.
+Proof.
+  split; [apply defect_reverse_invol_all|]. split; [apply low_defect_reverse|]. split; [apply defect_reverse_high|].
+  destruct flags_low as (F1 & F2 & F3 & F4 & F5 & F6).
+  destruct (defect_reverse_spec (low d) (low_lt d)) as (_ & S1 & S2 & S3 & S4 & S5 & S6 & _).
+  rewrite (has_flag_low (defect_reverse d)), (has_flag_low d D_MISS_RIGHT) by assumption.
+  rewrite (has_flag_low (defect_reverse d) D_MISS_RIGHT), (has_flag_low d D_MISS_LEFT) by assumption.
+  rewrite (has_flag_low (defect_reverse d) D_BEYOND_LEFT), (has_flag_low d D_BEYOND_RIGHT) by assumption.
+  rewrite (has_flag_low (defect_reverse d) D_BEYOND_RIGHT), (has_flag_low d D_BEYOND_LEFT) by assumption.
+  rewrite (has_flag_low (defect_reverse d) D_UNKNOWN_LEFT), (has_flag_low d D_UNKNOWN_RIGHT) by assumption.
+  rewrite (has_flag_low (defect_reverse d) D_UNKNOWN_RIGHT), (has_flag_low d D_UNKNOWN_LEFT) by assumption.
+  rewrite !low_defect_reverse. repeat split; assumption.
+Qed.
+
 (* ------------------------------------------------------------------ generic list helpers *)
 Lemma all_some_map {A B} (f : A -> option B) (g : A -> B) l :
   (forall x, In x l -> f x = Some (g x)) -> all_some (map f l) = Some (map g l).
